@@ -619,6 +619,10 @@ class Translator:
                 continue
             params.append('%s v_%s' % (t.c(ty), san(an) if an else str(i)))
         sig = '%s %s(%s)' % (t.c(ret), cname, ', '.join(params) or 'void')
+        if coro:
+            if params or ret.k != 'void':
+                raise SyntaxError('coroutine thread entry %s must be void(void)' % raw(name))
+            sig = 'int %s(void)' % cname
         t.protos.append(sig + ';')
         if t.is_cut(name):
             t.cut_hit.append(raw(name))
@@ -1035,7 +1039,7 @@ class Translator:
                         kind = int(re.search(r'(\d+)ULL', cargs[0][1]).group(1))
                         if kind in (2, 3, 4):
                             flags[lab].add('sync')
-                        if kind in (0, 1) and not t.opts.get('all_hooks'):
+                        if kind in (0, 1) and not t.opts.get('all_hooks') and not coro:
                             continue   # plain mode without watch counters: LOAD/STORE hooks carry no meaning for one thread
                         st.append(('hook', kind, cargs[1][1] if len(cargs) > 1 else '0'))
                         continue
@@ -1067,7 +1071,11 @@ class Translator:
     def emit_fn(t, name, cname, sig, ret, args, order, pos, code, phis, decl, flags, coro, info):
         o = [sig, '{']
         for v, ty in sorted(decl.items()):
-            o.append('  %s %s;' % (ty, v))
+            o.append('  %s%s %s;' % ('static ' if coro else '', ty, v))
+        nres = [0]
+        if coro:
+            o.append('  static uint32_t yk_pc;')
+            o.append('  /*YK_DISPATCH*/')
         loopmarks = []
 
         def edge(frm, to):
@@ -1142,14 +1150,26 @@ class Translator:
                         o.append('    default: %s' % e)
                         o.append('  }')
                     elif s[0] == 'ret':
-                        o.append('  return;' if s[1] is None else '  return %s;' % s[1])
+                        if coro:
+                            o.append('  yk_pc = 0x7fffffffU; return 0;')
+                        else:
+                            o.append('  return;' if s[1] is None else '  return %s;' % s[1])
                     elif s[0] == 'call':
                         o.append('  ' + (s[2] + ';' if s[1] is None else '%s = %s;' % (s[1], s[2])))
                     elif s[0] == 'hook':
-                        o.append('  yk_hook(%d, (const void*)%s);' % (s[1], s[2]))
+                        if coro:
+                            nres[0] += 1
+                            o.append('  yk_pc = %dU; if (yk_preempt(%d, (const void*)%s)) return 1; R_%d: ;' % (nres[0], s[1], s[2], nres[0]))
+                        else:
+                            o.append('  yk_hook(%d, (const void*)%s);' % (s[1], s[2]))
                 else:
                     o.append('  ' + s)
         o.append('}')
+        if coro:
+            di = o.index('  /*YK_DISPATCH*/')
+            disp = '  switch (yk_pc) { case 0U: break; case 0x7fffffffU: return 0; ' + ' '.join('case %dU: goto R_%d;' % (k, k) for k in range(1, nres[0] + 1)) + ' default: break; }'
+            o[di] = disp
+            info['resume_points'] = nres[0]
         info['loopmarks'] = loopmarks   # (line offset inside this function's text, kind)
         t.bodies.append((cname, o))
 
